@@ -316,15 +316,29 @@ def run(ctx):
         model = fw.run_lines(fw.FUVM, ml)
         # run: accepted vectors containing -delete or an -exec that changes things are skipped
         il, idx = [], []
+        mark = os.path.join(forest.dir.decode(), "executed.mark")
+        marker_cmd = os.path.join(forest.dir.decode(), "leave-a-mark")
+        with open(marker_cmd, "w") as f:
+            f.write("#!/bin/sh\necho \"$0 $*\" >> '%s'\n" % mark)
+        os.chmod(marker_cmd, 0o755)
         for k, (argv, m) in enumerate(zip(vectors, model)):
             if m == "accept" and "-delete" in argv:
                 continue
-            il.append("find - %s %s" % (fw.hexs(forest.dir), xc.hexlist([b"sb"] + [a.encode() for a in argv])))
+            run_argv = list(argv)
+            if m == "reject":
+                # "before any file is ... executed upon": in a vector that must be rejected the command of every -exec/-execdir is a
+                # script that leaves a mark
+                for j, a in enumerate(run_argv[:-1]):
+                    if a in ("-exec", "-execdir") and run_argv[j + 1] in ("true", "echo"):
+                        run_argv[j + 1] = marker_cmd
+            il.append("find - %s %s" % (fw.hexs(forest.dir), xc.hexlist([b"sb"] + [a.encode() for a in run_argv])))
             idx.append(k)
         before = c10.snapshot(sb.encode())
         impl = xc.run_impl(il)
         after = c10.snapshot(sb.encode())
         bad = []
+        if os.path.exists(mark):
+            bad.append(("a command was executed by a vector that is not a sentence of the grammar: %r" % open(mark).read()[:200], [], "", ""))
         if before != after:
             bad.append(("sandbox changed during the runs (some rejected vector had an effect, or an accepted one was destructive)", [], "", ""))
         for k, i in zip(idx, impl):
@@ -356,6 +370,7 @@ def run(ctx):
         printf_widths(ctx, forest)
         ordinary_status(ctx, forest)
         unwritable_everywhere(ctx, forest)
+        regex_operands(ctx, forest)
         panic_inventory(ctx)
     finally:
         forest.close()
@@ -429,6 +444,30 @@ def ordinary_status(ctx, forest):
             ctx.violation("find %s: exit %d (%s); expected an ordinary exit status %d" % (" ".join(short), p.returncode, p.stderr.decode("utf-8", "replace")[:120], want_rc),
                           {"property": "C11", "kind": "ordinary-status", "find_args": short, "exit": p.returncode, "stderr": p.stderr.decode("utf-8", "replace")[:300],
                            "expected_exit": want_rc})
+
+
+# (-regextype, operand, valid) - each line confirmed against GNU find 4.9 and the POSIX text; the harness's own regex oracle asks the
+# engine the implementation uses, so what that engine gets wrong has to be listed
+REGEX_OPERANDS = [("posix-extended", "a{2,1}", False), ("posix-basic", "a\\{2,1\\}", False), ("grep", "a\\{2,1\\}", False), ("grep", "a\\{2,1\\}b", False),
+                  ("sed", "x\\{1,32768\\}", False), ("ed", "x\\{1,32767\\}", True), ("posix-extended", "a{32767}", True), ("posix-extended", "a{99999}", False),
+                  ("emacs", "a\\{2,1\\}", True), ("posix-extended", "a{1,2}", True), ("posix-extended", "[{2,1}]", True), ("posix-extended", "[[:alpha:]{2,1}]", True),
+                  ("posix-extended", "(a{3,2})", False), ("posix-extended", "\\\\{2,1}", False), ("posix-extended", "[", False), ("posix-basic", "\\(", False),
+                  ("posix-extended", "(", False), ("posix-extended", "a)", True), ("emacs", "\\(", False), ("posix-extended", "a{1", False),
+                  ("posix-basic", "a\\{1", False), ("posix-extended", "a{x}", False)]
+
+
+def regex_operands(ctx, forest):
+    """an invalid operand to -regex is rejected (nothing printed, exit 1), a valid one is not - per syntax"""
+    for ty, pat, valid in REGEX_OPERANDS:
+        for prim in ("-regex", "-iregex"):
+            line = "find - %s %s" % (fw.hexs(forest.dir), xc.hexlist([b"sb", b"-regextype", ty.encode(), prim.encode(), pat.encode(), b"-o", b"-print0"]))
+            code, out, err = wc.decode_find(xc.run_impl([line])[0])
+            ctx.count(("regex-operand", ty, pat, prim), True, ["regex-operand", "valid=%d" % valid])
+            rejected = code == 1 and out == b"" and err.startswith(b"Error")
+            if code in ("panic", "runner-died") or rejected == valid:
+                ctx.violation("find sb -regextype %s %s %r -o -print0: exit %s, %d bytes printed; the operand is %s" % (ty, prim, pat, code, len(out), "valid" if valid else "invalid"),
+                              {"property": "C11", "kind": "regex-operand", "regextype": ty, "operand": pat, "primary": prim, "exit": str(code),
+                               "stderr": err.decode("utf-8", "replace")[:200], "valid": valid})
 
 
 def panic_inventory(ctx):
